@@ -366,7 +366,7 @@ fn eval(w: &mut crate::world::World, case: &PuCase, rec: &mut Rec) -> bool {
 }
 
 pub fn jobs(tier: Tier) -> Vec<Job> {
-    let full = PuChecker { name: "c02-pu-full".into(), seeds: vec!["S0", "S1", "S2", "S2r", "S3", "S4", "S6", "S7", "S8"], alpha: Alpha::Full, oracles: vec![oracle] };
+    let full = PuChecker { name: "c02-pu-full".into(), seeds: vec!["S0", "S1", "S2", "S2r", "S3", "S4", "S6", "S7", "S8", "S8a"], alpha: Alpha::Full, oracles: vec![oracle] };
     let core = PuChecker { name: "c02-pu-core".into(), seeds: vec!["S2", "S4"], alpha: Alpha::Core, oracles: vec![oracle, oracle_split_coin] };
     vec![
         explore_job(full, tier.pick(2, 3), Caps::default()),
